@@ -527,6 +527,19 @@ func (u *Unit) modifiesHeap(sig *types.Signature, m Clause, some map[string]bool
 		some[u.ghostHeap(name)] = true
 		return true
 	}
+	if arg, ok := typeWideModifies(m); ok {
+		// modifies allof(T): the whole heap of that type (resolved in this package; a type of another package that
+		// cannot be resolved here falls back to "everything")
+		env := &SpecEnv{u: u, st: u.entry, old: u.entry, names: map[string]Term{}, cs: u.cs, pkg: u.pkg.Types, own: true}
+		nerr := len(u.specErrors)
+		h := u.typeWideHeap(env, arg)
+		u.specErrors = u.specErrors[:nerr]
+		if h != "" {
+			some[h] = true
+			return true
+		}
+		return false
+	}
 	id, ok := ast.Unparen(m.Expr).(*ast.Ident)
 	if !ok {
 		return false
@@ -1201,6 +1214,11 @@ func (u *Unit) frameGoals(st *State, only map[string]bool) []frameGoal {
 	}
 	alloc0 := u.entry.alloc
 	ghostFrame := declaresGhostFrame(u.ct)
+	if st.unk && only == nil {
+		// an uncontracted / modifies-all callee (or a loop whose body contains one) ran on this path: heaps this unit never
+		// names may have changed as well, so the frame cannot be established by looking at the named heaps only
+		out = append(out, frameGoal{"frame[*]", "no everything-havoc (uncontracted or modifies-all callee) on a path of a frame-checked function", "false"})
+	}
 	for _, h := range sortedKeys(u.c.heapNames) {
 		if mapMods[h] || (only != nil && !only[h]) {
 			continue
@@ -1307,6 +1325,12 @@ func (u *Unit) havocLoop(st *State, body ast.Node, extra []*types.Var) {
 		for _, h := range sortedKeys(u.c.heapNames) {
 			u.havocHeap(st, h)
 		}
+		u.hvCounter++
+		st.hvgen = u.hvCounter
+		if u.loopGens == nil {
+			u.loopGens = map[int]bool{}
+		}
+		u.loopGens[st.hvgen] = true
 	} else {
 		for _, h := range sortedKeys(some) {
 			u.havocHeap(st, h)
@@ -1427,12 +1451,19 @@ func (u *Unit) runLoop(st *State, lc *LoopContract, n int, label string, pos, bo
 	// 2. havoc + assume invariants
 	head := st.clone()
 	u.havocLoop(head, havocNode, extraHavoc)
+	if u.loopAlloc == nil {
+		u.loopAlloc = map[int]string{}
+	}
+	u.loopAlloc[n] = head.alloc // allocation counter at the head of the (generic) current iteration: freshin(n, x)
 	henv := u.invEnv(head, bodyPos)
 	for _, inv := range lc.Invariants {
 		head.assume(henv.evalBool(inv.Expr))
 	}
 	// implicit frame invariant: the function's modifies clause is respected at every iteration
 	for _, g := range u.frameGoals(head, nil) {
+		if g.name == "frame[*]" {
+			continue // an obligation of the exits, never an assumption
+		}
 		head.assume(g.goal)
 	}
 	for _, us := range lc.Uses {
